@@ -147,7 +147,7 @@ def _valid_case(ctx: Ctx, doc, eps, mode: str, reqs, todo, stream="valid") -> bo
     st, n = nc.load_impl(doc, eps)
     impl_line = nc.render_impl(n, mode) if st == "ok" else "err:" + n
     reqs.append(f"{mode} load {nc.eps_tokens(eps, mode)} {nc.enc_tree(doc, mode)}")
-    todo.append(("load", inp, impl_line, size))
+    todo.append(("load", inp, impl_line, size, nc.wl_scale(n)))
     ctx.case(stream, inp["tree"], st == "ok" and len(n.modules) > 0,
              sample={"mode": mode, "doc": inp["doc_repr"][:300], "verdict": st})
     ctx.count("valid-stream:" + ("accept" if st == "ok" else "reject"))
@@ -159,9 +159,13 @@ def _valid_case(ctx: Ctx, doc, eps, mode: str, reqs, todo, stream="valid") -> bo
     f = spec_derived(doc, eps, mode)
     if f is not None:
         clause = f[0]
-        small = nc.shrink(doc, lambda d: (spec_derived(d, eps, mode) or ("", None))[0] == clause)
-        f2 = spec_derived(small, eps, mode) or f
-        ctx.spec_fail(clause, nc.make_input(small, eps, mode), f2[1], nc.doc_size(small))
+        seen = sum(1 for x in ctx.spec_failures if x["clause"] == clause)
+        if seen < 3:    # shrink only the first few failures of a clause (the smallest one is reported)
+            small = nc.shrink(doc, lambda d: (spec_derived(d, eps, mode) or ("", None))[0] == clause)
+            f2 = spec_derived(small, eps, mode) or f
+            ctx.spec_fail(clause, nc.make_input(small, eps, mode), f2[1], nc.doc_size(small))
+        else:
+            ctx.spec_fail(clause, inp, f[1], size)
     return True
 
 
@@ -184,7 +188,7 @@ def _malformed_case(ctx: Ctx, base, eps, mode: str, cls: str, reqs, todo) -> Non
     st, n = nc.load_impl(bad, eps)
     impl_line = nc.render_impl(n, mode) if st == "ok" else "err:" + n
     reqs.append(f"{mode} load {nc.eps_tokens(eps, mode)} {nc.enc_tree(bad, mode)}")
-    todo.append(("load-malformed:" + cls, inp, impl_line, size))
+    todo.append(("load-malformed:" + cls, inp, impl_line, size, nc.wl_scale(n)))
     ctx.case("malformed", (cls, inp["tree"]), True, sample={"defect": cls, "doc": inp["doc_repr"][:300], "verdict": st})
     ctx.count("defect:" + cls + (":rejected" if st != "ok" else ":accepted"))
     if st != "ok" and n != "Assert":
@@ -194,9 +198,9 @@ def _malformed_case(ctx: Ctx, base, eps, mode: str, cls: str, reqs, todo) -> Non
 
 
 def compare(ctx: Ctx, todo, replies) -> None:
-    for (op, inp, impl_line, size), rep in zip(todo, replies):
+    for (op, inp, impl_line, size, wls), rep in zip(todo, replies):
         model = rep if not rep.startswith("err:Assert") else "err:Assert"
-        ok, exact, why = nc.cmp_lines(impl_line, model, inp["mode"], TOL)
+        ok, exact, why = nc.cmp_lines(impl_line, model, inp["mode"], TOL, wls)
         if not ok:
             ctx.disagree(op, inp, impl_line[:2000], rep[:2000] + "  [" + why + "]", size)
         elif not exact:
@@ -212,6 +216,14 @@ def run(ctx: Ctx) -> None:
                 "flag type, fixed+hard, malformed centre / aspect ratio / rectangles / nets / root, centre or aspect on a "
                 "hard module, flip on a non-hard module, region on a hard rectangle, negative coordinates); non-trivial = "
                 "accepted non-empty document (valid) / every malformed case")
+    ctx.assumptions = [
+        "create_stog is a parameter of the model (StogPerm: it permutes a module's rectangles, changing only roles); "
+        "math.sqrt is a parameter (wire length); the area tolerance in force is the parameter εA",
+        "a Python dict cannot hold a key twice: the model rejects duplicate keys, the generators never produce them",
+        "exact-field arithmetic in the theorems; float stream compared with 1e-9 relative tolerance (wire length: relative "
+        "to Σ w·k·max|coordinate|, the scale at which the rounding of the mean is amplified)",
+        "rejection is compared as accept / reject + exception class (AssertionError), never by message",
+    ]
     nv = ctx.n(1200, 10000)
     nm = ctx.n(3600, 30000)
     reqs, todo = [], []
@@ -260,7 +272,7 @@ def replay(ctx: Ctx, body: dict) -> None:
     st, n = nc.load_impl(doc, eps)
     impl_line = nc.render_impl(n, mode) if st == "ok" else "err:" + n
     reqs.append(f"{mode} load {nc.eps_tokens(eps, mode)} {nc.enc_tree(doc, mode)}")
-    todo.append(("load", inp, impl_line, nc.doc_size(doc)))
+    todo.append(("load", inp, impl_line, nc.doc_size(doc), nc.wl_scale(n)))
     cls = inp.get("defect")
     if cls in nc.LISTED and st == "ok":
         ctx.spec_fail("reject:" + cls, inp, {"defect": cls, "loaded": impl_line[:500]}, nc.doc_size(doc))
